@@ -122,7 +122,8 @@ func (r *DailyRotateRule) OutdatedFiles() []string {
 
 	var outdates []string
 	for _, file := range files {
-		if file < boundaryFile {
+		// 分隔符为空时，模式会匹配到当前日志文件自身：绝不删除它。
+		if file != r.filename && file < boundaryFile {
 			outdates = append(outdates, file)
 		}
 	}
@@ -183,6 +184,14 @@ func (r *SizeLimitRotateRule) OutdatedFiles() []string {
 		return nil
 	}
 
+	// 分隔符为空时，模式会匹配到当前日志文件自身：它不是备份，绝不参与清理。
+	backups := make([]string, 0, len(files))
+	for _, f := range files {
+		if f != r.filename {
+			backups = append(backups, f)
+		}
+	}
+	files = backups
 	sort.Strings(files)
 
 	outdated := make(map[string]lang.PlaceholderType)
